@@ -326,6 +326,18 @@ func Yield(site string) {
 	s.point(KYield, site)
 }
 
+// progress counts events that move a request forward: bytes delivered or
+// written by the simulated transport, completed file-system calls, lock
+// acquisitions, tasks that finish.  A run that burns wall-clock time while this
+// counter stands still is spinning; one that is merely slow keeps it moving.
+var progress int64
+
+// Progress records one such event.
+func Progress() { atomic.AddInt64(&progress, 1) }
+
+// ProgressCount returns the number of events recorded by this process.
+func ProgressCount() int64 { return atomic.LoadInt64(&progress) }
+
 // Point is a scheduling point for simulated I/O and operation boundaries.
 func Point(site string) {
 	s := gated()
@@ -700,6 +712,7 @@ type Mutex struct {
 func lockName(p interface{}) string { return fmt.Sprintf("%T@%p", p, p) }
 
 func (m *Mutex) Lock() {
+	Progress()
 	s := gated()
 	if s == nil || s.cur == nil {
 		m.real.Lock()
@@ -785,6 +798,7 @@ func (m *RWMutex) wakeAll() {
 }
 
 func (m *RWMutex) Lock() {
+	Progress()
 	s := gated()
 	if s == nil || s.cur == nil {
 		m.real.Lock()
@@ -825,6 +839,7 @@ func (m *RWMutex) Unlock() {
 }
 
 func (m *RWMutex) RLock() {
+	Progress()
 	s := gated()
 	if s == nil || s.cur == nil {
 		m.real.RLock()
